@@ -535,16 +535,30 @@ func cmdCheck(args []string) int {
 		rf     replayFile
 		kf     string
 		natIdx int
+		key    string
 	}
 	var pend []pending
-	seenLabel := map[string]bool{}
+	// one counterexample per (harness, label, known-finding) is reported; up to four candidates,
+	// spread over the violating paths found, are kept, because a counterexample whose native twin
+	// depends on the native scheduler (a select with several ready cases) need not reproduce
+	// while another one does
+	byKey := map[string][]int{}
 	for i, hv := range viols {
-		// one counterexample per (harness, label, known-finding) is reported
 		key := hv.h.Name + "|" + hv.v.Label + "|" + hv.v.KF
-		if seenLabel[key] {
+		byKey[key] = append(byKey[key], i)
+	}
+	keep := map[int]bool{}
+	for _, idx := range byKey {
+		n := len(idx)
+		for _, k := range []int{0, n / 3, 2 * n / 3, n - 1} {
+			keep[idx[k]] = true
+		}
+	}
+	for i, hv := range viols {
+		key := hv.h.Name + "|" + hv.v.Label + "|" + hv.v.KF
+		if !keep[i] {
 			continue
 		}
-		seenLabel[key] = true
 		rpkg, rhdir := cfg.Pkg, cfg.HDir
 		if hv.h.Pkg != "" {
 			rpkg, rhdir = hv.h.Pkg, hv.h.HDir
@@ -554,7 +568,7 @@ func cmdCheck(args []string) int {
 		path := filepath.Join(*verif, "replay", fmt.Sprintf("%s_%s_%d.json", prop, hv.h.Name, i))
 		b, _ := json.MarshalIndent(rf, "", " ")
 		os.WriteFile(path, b, 0o644)
-		pd := pending{path: path, rf: rf, kf: hv.v.KF, natIdx: -1}
+		pd := pending{path: path, rf: rf, kf: hv.v.KF, natIdx: -1, key: key}
 		if hv.h.Native && !engineOnlyLabel(hv.v.Label) {
 			pd.natIdx = len(natCases)
 			natCases = append(natCases, nativeCase{Label: hv.v.Label, Harness: hv.h.Name, Tier: tier, Inputs: hv.v.Inputs})
@@ -598,7 +612,13 @@ func cmdCheck(args []string) int {
 	nViol := 0
 	var lines []string
 	kfPrinted := map[string]bool{}
+	keyDone := map[string]bool{}   // a candidate of this key was confirmed and reported
+	keyFail := map[string]string{} // first non-reproduction message per key
 	for _, pd := range pend {
+		if keyDone[pd.key] {
+			os.Remove(pd.path)
+			continue
+		}
 		confirmed := false
 		how := "engine-replayed only (harness uses engine-side stubs)"
 		if pd.natIdx >= 0 {
@@ -614,8 +634,10 @@ func cmdCheck(args []string) int {
 			}
 			how = "reproduced natively (go test -overlay): " + got.End
 			if !confirmed {
-				problems = append(problems, fmt.Sprintf("counterexample of %s (%s) does not reproduce natively (native end=%s): encoding or harness mismatch, replay=%s",
-					pd.rf.Harness, pd.rf.Label, got.End, pd.path))
+				if keyFail[pd.key] == "" {
+					keyFail[pd.key] = fmt.Sprintf("counterexample of %s (%s) does not reproduce natively (native end=%s): encoding or harness mismatch, replay=%s",
+						pd.rf.Harness, pd.rf.Label, got.End, pd.path)
+				}
 				continue
 			}
 		} else {
@@ -625,10 +647,13 @@ func cmdCheck(args []string) int {
 			}
 			confirmed = concreteReplay(rp, pd.rf)
 			if !confirmed {
-				problems = append(problems, fmt.Sprintf("counterexample of %s (%s) does not reproduce in concrete-engine mode, replay=%s", pd.rf.Harness, pd.rf.Label, pd.path))
+				if keyFail[pd.key] == "" {
+					keyFail[pd.key] = fmt.Sprintf("counterexample of %s (%s) does not reproduce in concrete-engine mode, replay=%s", pd.rf.Harness, pd.rf.Label, pd.path)
+				}
 				continue
 			}
 		}
+		keyDone[pd.key] = true
 		if pd.kf != "" {
 			if !kfPrinted[pd.kf] {
 				kfPrinted[pd.kf] = true
@@ -640,6 +665,11 @@ func cmdCheck(args []string) int {
 		lines = append(lines, fmt.Sprintf("VIOLATION property=%s replay=%s", prop, pd.path))
 		lines = append(lines, fmt.Sprintf("  harness=%s label=%s %s %s inputs=%v", pd.rf.Harness, pd.rf.Label, pd.rf.Msg, how, compactInputs(pd.rf.Inputs)))
 		exit = 1
+	}
+	for k, msg := range keyFail {
+		if !keyDone[k] {
+			problems = append(problems, msg)
+		}
 	}
 	// differential harnesses: the real code disagreed with the reference model on a path's witness
 	diffSeen := map[string]bool{}
